@@ -109,6 +109,32 @@ func checkC08(c WKCase, st *stats.Collector) error {
 				return pk.Failf("info-listing", "Info.Channels[%d] = %s, summary record differs", r.ID, pk.Short(ch))
 			}
 		}
+		// Info's own per-channel view: ChannelCounts reports message counts by topic
+		if err := func() (err error) {
+			defer func() {
+				if x := recover(); x != nil {
+					err = pk.Failf("info-channel-counts", "Info.ChannelCounts panicked: %v (summary channels: %d, channels in statistics: %d)", x, len(sumC), len(info.Statistics.ChannelMessageCounts))
+				}
+			}()
+			got := info.ChannelCounts()
+			wantByTopic := map[string]uint64{}
+			for _, r := range sumC {
+				wantByTopic[r.Topic] += ms.ChannelCounts[r.ID]
+			}
+			for topic, n := range wantByTopic {
+				if got[topic] != n {
+					return pk.Failf("info-channel-counts", "Info.ChannelCounts()[%q] = %d, the channels with that topic carry %d messages", topic, got[topic], n)
+				}
+			}
+			for topic, n := range got {
+				if _, ok := wantByTopic[topic]; !ok && n != 0 {
+					return pk.Failf("info-channel-counts", "Info.ChannelCounts() reports %d messages for topic %q, which no summary channel has", n, topic)
+				}
+			}
+			return nil
+		}(); err != nil {
+			return err
+		}
 		cis := d.Summary(specdec.OpChunkIndex)
 		if len(info.ChunkIndexes) != len(cis) {
 			return pk.Failf("info-chunks", "Info lists %d chunk indexes, summary has %d (channels in summary: %d, message indexing: %v)", len(info.ChunkIndexes), len(cis), len(sumC), !k.SkipMessageIndexing)
